@@ -433,3 +433,14 @@ def unguarded_exit(cx, fn, sources, barrier, unroll=1, follow_exceptions=False, 
   if px.truncated:
     return 'truncated'
   return None
+
+
+def feasible_exit_avoiding(cx, fn, avoid, unroll=1, follow_exceptions=False, max_paths=3000):
+  """a Hit for a feasible path from the entry of ``fn`` to its normal exit that runs no node of ``avoid``; None if there
+  is none; 'truncated' when there are too many paths to tell."""
+  px = PathExec(cx, fn, unroll=unroll, max_paths=max_paths, follow_exceptions=follow_exceptions)
+  avoid = set(avoid)
+  for hit in px.run({px.g.exit}):
+    if not any(n in avoid for n in hit.trail):
+      return hit
+  return 'truncated' if px.truncated else None
